@@ -3,7 +3,7 @@ chunks, identical on the implementation and the reference side."""
 import z3
 from .values import *
 from .intrinsics import Intrinsics, PKG
-from .engine import Forks
+from .engine import Forks, EngineError
 
 
 def _bytes_le(v, n):
@@ -13,6 +13,39 @@ def _bytes_le(v, n):
 
 
 class ChunkIntrinsics(Intrinsics):
+    def go_stmt(self, eng, st, fr, callee, args, ins):
+        """the S2 / zstd decoding goroutines of decBlock: third-party decoders, replaced by their assumed contract
+        (either report an error or fill dst completely with some bytes; never panic)"""
+        name = callee.name or ""
+        if not name.startswith("(*%s.Serializer).decBlock$" % PKG):
+            return None
+        fn = eng.p.funcs.get(name)
+        fv = {f["n"]: b for f, b in zip(fn["freevars"], callee.bindings)}
+        pos = ins.get("pos")
+        pperr = fv.get("f:dstErr")
+        pdst = fv.get("f:dst")
+        if pperr is None or pdst is None:
+            raise EngineError("decBlock closure: unexpected free variables %s" % list(fv))
+        perr = eng.deref(st, pperr, pos)
+        dst = eng.deref(st, pdst, pos)
+        self.used.add("contract:s2/zstd decoder (error or fill, never panic)")
+        ok = eng.fresh_bool("decoder.ok")
+        forks = []
+        for s, b in eng.branch(st, ok):
+            if b:
+                n = eng.need_int(s, dst.len, pos, "decoder dst length")
+                if n:
+                    arr = eng.load_path(s.mem[dst.obj], dst.path, s, pos)
+                    off = eng.need_int(s, dst.off, pos, "decoder dst offset")
+                    arr = arr[:off] + tuple(eng.fresh("decoded", 8) for _ in range(n)) + arr[off + n:]
+                    s.mem[dst.obj] = eng.store_path(s.mem[dst.obj], dst.path, arr, s, pos)
+                eng.store(s, perr, NILIFACE, pos)
+            else:
+                eng.store(s, perr, self.new_err("decoder"), pos)
+            if s is not st:
+                forks.append(s)
+        return forks if forks else []
+
     def _register(self):
         super()._register()
         reg = self.reg
